@@ -367,6 +367,22 @@ PROPS = {
                 quick=160, thorough=4000,
                 relevant=lambda f: f["kind"] in ({"inv", "readpaths"} | COMMON_KINDS),
                 nontrivial=TREE_NONTRIVIAL),
+    "C04": dict(engine="tree", profiles=[("tree", 3, False), ("ingest", 1, False), ("drop", 1, False), ("tree", 1, True)], n_ops=120,
+                quick=160, thorough=4000,
+                relevant=lambda f: f["kind"] in ({"reopen-diff", "marks", "agree", "oracle-get", "oracle-contains", "oracle-range", "inv", "resolve"} | COMMON_KINDS),
+                nontrivial=lambda st: TREE_NONTRIVIAL(st) and st.get("reopen_compared", 0) >= 1),
+    "C13": dict(engine="tree", profiles=[("weak", 1, False)], n_ops=140,
+                quick=200, thorough=5000, validator="weak",
+                relevant=lambda f: f["kind"] in ({"oracle-get", "oracle-contains", "oracle-range", "oracle-prefix", "oracle-len", "oracle-first", "oracle-last", "oracle-isempty", "agree", "inv", "nosv"} | COMMON_KINDS),
+                nontrivial=TREE_NONTRIVIAL),
+    "C14": dict(engine="tree", profiles=[("ingest", 3, False), ("ingest", 1, True)], n_ops=120,
+                quick=160, thorough=4000,
+                relevant=lambda f: f["kind"] in ({"oracle-get", "oracle-contains", "oracle-range", "oracle-prefix", "oracle-len", "agree", "inv", "nosv", "ingest-missing", "marks", "reopen-diff", "resolve"} | COMMON_KINDS),
+                nontrivial=lambda st: TREE_NONTRIVIAL(st) and st.get("ingests", 0) >= 1),
+    "C15": dict(engine="tree", profiles=[("drop", 3, False), ("drop", 1, True)], n_ops=120,
+                quick=160, thorough=4000,
+                relevant=lambda f: f["kind"] in ({"drop-outside", "drop-added", "drop-nosv", "oracle-get", "oracle-contains", "oracle-range", "oracle-prefix", "oracle-len", "agree", "inv", "nosv", "reopen-diff"} | COMMON_KINDS),
+                nontrivial=lambda st: st.get("flush_steps", 0) >= 1 and (st.get("droprange_effective", 0) + st.get("clears", 0)) >= 1),
     "C18": dict(engine="tree", profiles=[("tree", 3, False), ("ingest", 2, False), ("drop", 1, False)], n_ops=120,
                 quick=160, thorough=4000,
                 relevant=lambda f: f["kind"] in ({"marks"} | COMMON_KINDS),
@@ -386,6 +402,7 @@ TRUSTED_BASE = [
 
 def tree_engine(prop, tier, seed, count_override, coq):
     spec = PROPS[prop]
+    CURRENT_VALIDATOR[0] = VALIDATORS.get(spec.get("validator"))
     t0 = time.time()
     workdir = os.path.join(WORK, prop)
     shutil.rmtree(workdir, ignore_errors=True)
